@@ -5351,7 +5351,14 @@ class Parameterized(metaclass=ParameterizedMetaclass):
                             watcher_args[0] = self
                         fn = watcher.fn
                         if hasattr(fn, '_watcher_name'):
-                            watcher_args[2] = _m_caller(self, fn._watcher_name)
+                            # Only re-create the callers of this object's own methods:
+                            # a watcher installed by another object that depends on
+                            # this one (its sub-object) already refers to that
+                            # object's copy
+                            function = getattr(fn, 'keywords', {}).get('function')
+                            owner = None if function is None else get_method_owner(function)
+                            if owner is None or owner is self:
+                                watcher_args[2] = _m_caller(self, fn._watcher_name)
                         elif get_method_owner(fn) is watcher.inst:
                             watcher_args[2] = getattr(self, fn.__name__)
                         new_watchers.append(Watcher(*watcher_args))
